@@ -34,6 +34,23 @@ sim::Json model_scenario(const gen::Model& m, bool ampl_flag, bool binary) {
   return sc;
 }
 
+// names the way long string subscripts make them: hundreds of characters, equal up to the last few; the same name on several
+// items (a malformed or hand-edited names file).  Returns shape * 10000 + length.
+long apply_long_names(sim::Rng& rng, gen::Model& m, bool allow_duplicates) {
+  static const int lens[] = {40, 120, 250, 251, 254, 255, 256, 300, 1000, 5000};
+  int shape = allow_duplicates ? (int)rng.below(3) : 2 * (int)rng.below(2), L = lens[rng.below(10)];
+  char fill = "kQ_"[rng.below(3)];
+  auto rename = [&](std::string& nmv, const char* base, int i) {
+    if (shape == 0) nmv = std::string(base) + "['" + std::string(L, fill) + "'," + std::to_string(i + 1) + "]";
+    else if (shape == 1) nmv = std::string(base) + "['" + std::string(i % 2 ? L : 3, fill) + "']";                    // duplicates, long and short
+    else nmv = std::string(base) + "[" + std::to_string(i + 1) + ",'" + std::string(L, fill) + "']";
+  };
+  for (int j = 0; j < m.nvars(); ++j) rename(m.vars[j].name, "Flow", j);
+  for (int i = 0; i < (int)m.cons.size(); ++i) rename(m.cons[i].name, rng.chance(0.5) ? "Flow" : "Bal", i);
+  for (int i = 0; i < (int)m.lcons.size(); ++i) rename(m.lcons[i].name, "Log", i);
+  return (long)shape * 10000 + L;
+}
+
 void add_names_files(sim::Json& sc, const gen::Model& m, int mode) {
   sc.set("names_mode", mode);
   if (mode == NAMES_NONE) return;
